@@ -15,6 +15,7 @@ import Qsx.Model.Spec
 import Qsx.Model.Session
 import Qsx.Model.Log
 import Qsx.Model.Ratio
+import Qsx.Model.Symtab
 open Qsx
 
 def hexVal (c : Char) : Option Nat :=
@@ -212,6 +213,80 @@ where
         | none => some (st, ["bad-op empty-slot"])
       | _, _ => some (st, ["bad-op"])
     | _ => none
+
+/-! symbol-table sessions (C06): names are hex strings, `-` = NULL -/
+def stHexVal (c : Char) : Nat :=
+  if '0' ≤ c && c ≤ '9' then c.toNat - '0'.toNat
+  else if 'a' ≤ c && c ≤ 'f' then c.toNat - 'a'.toNat + 10
+  else if 'A' ≤ c && c ≤ 'F' then c.toNat - 'A'.toNat + 10 else 0
+
+def stUnhex : List Char → List Nat
+  | a :: b :: r => (stHexVal a * 16 + stHexVal b) :: stUnhex r
+  | _ => []
+
+def stHexDigit (n : Nat) : Char := if n < 10 then Char.ofNat (48 + n) else Char.ofNat (87 + n)
+
+def stHexOf (bs : List Nat) : String :=
+  if bs.isEmpty then "00" else String.ofList (bs.flatMap fun b => [stHexDigit (b / 16), stHexDigit (b % 16)])
+
+def pStName : P (Option Qsx.Symtab.Name) := do
+  let t ← pTok
+  if t == "-" then pure none else pure (some (stUnhex t.toList))
+
+def symtabDump (t : Qsx.Symtab.T) : List String :=
+  [s!"st {t.ents.size} {t.nameSpace} {t.hashspace} {if t.indexOk then 1 else 0} {t.strsize} {t.strspace} {t.freed}"] ++
+  ((List.range t.ents.size).map fun i =>
+    let e := t.ents.getD i default
+    s!"ent {i} {match e.name with | some n => stHexOf n | none => "-"} {e.index}") ++
+  ((List.range t.hashspace).filterMap fun x =>
+    let l := t.buckets.getD x []
+    if l.isEmpty then none else some (s!"chain {x} " ++ " ".intercalate (l.map toString)))
+
+/-- `symtab <init> <n> op*n` with ops `reg <hex|-> idx | del hex | ren i <hex|-> | look hex | getidx hex | reset k hex*k`:
+after every op the result line and the dump -/
+def symtabSession : P (List String) := do
+  let init ← pNat
+  let n ← pNat
+  let mut t := Qsx.Symtab.create init
+  let mut out : List String := ["new 0"] ++ symtabDump t
+  for _ in [0:n] do
+    let op ← pTok
+    if op == "reg" then
+      let nm ← pStName; let idx ← pInt
+      let (t', ex) := Qsx.Symtab.register t nm idx
+      t := t'
+      out := out ++ [s!"reg 0 {if ex then 1 else 0}"]
+    else if op == "del" then
+      let nm ← pStName
+      match nm with
+      | some s => let (t', rc) := Qsx.Symtab.delete t s; t := t'; out := out ++ [s!"del {rc}"]
+      | none => failure
+    else if op == "ren" then
+      let i ← pNat; let nm ← pStName
+      let (t', rc) := Qsx.Symtab.rename t i nm
+      t := t'
+      out := out ++ [s!"ren {rc}"]
+    else if op == "look" then
+      let nm ← pStName
+      match nm with
+      | some s => match Qsx.Symtab.lookup t s with
+        | some k => out := out ++ [s!"look 0 {k}"]
+        | none => out := out ++ ["look 1 -1"]
+      | none => failure
+    else if op == "getidx" then
+      let nm ← pStName
+      match nm with
+      | some s => let (rc, k) := Qsx.Symtab.getindex t s; out := out ++ [s!"getidx {rc} {k}"]
+      | none => failure
+    else if op == "reset" then
+      let k ← pNat
+      let names ← pMany k pStName
+      let (t', rc) := Qsx.Symtab.indexReset t (names.toList.filterMap id)
+      t := t'
+      out := out ++ [s!"reset {rc}"]
+    else failure
+    out := out ++ symtabDump t
+  pure out
 
 /-- one protocol line ↦ answer lines (without the terminating ".") -/
 def answer (cx : Ctx) (toks : List String) : Ctx × List String :=
@@ -543,6 +618,8 @@ def answer (cx : Ctx) (toks : List String) : Ctx × List String :=
       let res := Qsx.Ratio.pII p rows.toList
       pure [s!"res {res.stat.code} {res.lindex} {fmtRat cx res.tz} {fmtRat cx res.pivot} {res.lvstat} {if res.boundch then 1 else 0} {fmtRat cx res.lbound}"]).run' rest
     (cx, r.getD ["bad-op"])
+  | "symtab" :: rest =>
+    (cx, (symtabSession.run' rest).getD ["bad-op"])
   | "ratiod2" :: rest =>
     -- C03: ILLratio_dII_test on explicit columns: lvupper pivtol dftol n (zA dz cz vstat skip)*n
     let r : Option (List String) := (do
